@@ -160,6 +160,13 @@ def fixed_modules() -> list[list[list[dict]]]:
         [[RESP("201", e_json(k=4)), RESP("200", e_json(k=9))]],
         [[RESP("200", e_json(k=0)), RESP("default", e_json(k=0))]],
         [[RESP("200", e_json(k=13), e_png())]],                                # JSON string served through response.text
+        # component responses ($ref under components.responses) shared by operations under different / equal 2xx codes
+        [[CREF("PetBody", "200", e_json(k=0))], [CREF("PetBody", "201", e_json(k=0))]],
+        [[CREF("PetBody", "200", e_json(k=0))], [CREF("PetBody", "200", e_json(k=0)), RESP("404")]],
+        [[CREF("ListBody", "200", e_json(k=9))], [CREF("ListBody", "201", e_json(k=9)), RESP("202")], [CREF("ListBody", "206", e_json(k=9))]],
+        [[CREF("TextBody", "201", e_text())], [CREF("TextBody", "200", e_text())]],
+        [[CREF("Empty", "204")], [CREF("Empty", "202")], [RESP("200", e_json(k=1)), CREF("Empty", "204")]],
+        [[RESP("200", e_json(k=0)), CREF("PetBody", "201", e_json(k=0))], [CREF("PetBody", "200", e_json(k=0))]],
         # a "2XX" range next to concrete NON-priority 2xx codes (no 200/201/202/204), different schemas, both orders:
         # every copy of _get_primary_response must pick the same primary, or the handler decodes with the wrong type
         [[RESP("2XX", e_json(k=0)), RESP("203", e_json(k=1))]],
@@ -215,21 +222,43 @@ def gen_op(rng) -> list[dict]:
     return rs
 
 
+def CREF(name: str, code: str, *entries: dict) -> dict:
+    """a response declared under components.responses[name] and referenced with $ref under `code`"""
+    return {"code": code, "content": list(entries), "cref": name}
+
+
 def gen_module(rng) -> list[list[dict]]:
-    return [gen_op(rng) for _ in range(rng.choice([1, 1, 2, 3]))]
+    mod = [gen_op(rng) for _ in range(rng.choice([1, 1, 2, 3]))]
+    if rng.random() < 0.15:
+        # one component response referenced from several operations under different (and equal) 2xx codes.
+        # Body schemas: $ref, or inline array/primitive (inline OBJECT bodies are promoted under per-operation names, which
+        # this harness's type ASTs do not predict)
+        body = rng.choice([[], [e_json(rng)], [e_json(rng)], [e_text()], [e_json(k=9)], [e_json(k=0), e_text()]])
+        codes = [rng.choice(["200", "201", "202", "206"]) for _ in range(rng.choice([2, 3]))]
+        for c in codes:
+            extra = [RESP("404")] if rng.random() < 0.5 else []
+            mod.append([CREF("SharedBody", c, *json.loads(json.dumps(body)))] + extra)
+    return mod
 
 
 def build_document(mod: list[list[dict]]) -> dict:
     paths = {}
+    shared: dict = {}
     for i, op in enumerate(mod):
         responses = {}
         for r in op:
             node: dict = {"description": "d"}
             if r["content"]:
                 node["content"] = {e["media"]: ({"schema": e["schema"]} if e["schema"] is not None else {}) for e in r["content"]}
+            if r.get("cref"):    # declared once under components.responses and referenced from the operation
+                shared[r["cref"]] = node
+                node = {"$ref": "#/components/responses/" + r["cref"]}
             responses[r["code"]] = node
         paths[f"/o{i}"] = {"get": {"operationId": f"op{i}", "tags": ["t"], "responses": responses}}
-    return {"openapi": "3.0.3", "info": {"title": "T", "version": "1.0"}, "paths": paths, "components": {"schemas": COMPONENTS}}
+    comps: dict = {"schemas": COMPONENTS}
+    if shared:
+        comps["responses"] = shared
+    return {"openapi": "3.0.3", "info": {"title": "T", "version": "1.0"}, "paths": paths, "components": comps}
 
 
 def _sse_wires() -> dict[str, tuple[bytes, int]]:
